@@ -67,7 +67,12 @@ _MORE = {
             "every length: (de)activation sets exactly the given flags, an unknown key raises KeyError with tables and FeatureDict unchanged, enable/disable add/remove exactly the given keys to/from the FeatureDict and request "
             "the bulk computation once iff recompute. "
             "Bounded: the values after enabling with recomputation (bulk compute) and whole interleavings with edits/undo/redo (seeded random).", "contract-based deductive verification (raises-iff, frame on active keys, table transformers with ghost key sets) + bounded stand-in"),
-    "C12": ("BOUNDED STAND-IN ONLY, DataFrame/CSV path only: exhaustive small tables incl. malformed variants vs the source table. GEFF path not covered.", "bounded stand-in (no obligation discharged)"),
+    "C12": ("flatten_name_map (the renaming step every importer goes through) proved for key mappings of every length with None / string / list values: "
+            "the result is, in mapping order, exactly one (standard key, source column) pair per string item and one unrenamed (column, column) pair per listed column in the mapped order "
+            "(two nested loop invariants over a ghost offset function; its monotonicity by an induction whose step is an obligation). "
+            "Everything else (pandas/geff loading, id renumbering, validation, graph construction) is a BOUNDED STAND-IN, DataFrame/CSV path only: exhaustive small tables incl. malformed variants "
+            "(duplicate id, unknown parent, self link, missing column, mapping to a column that exists only in another letter case) vs the source table. GEFF store path not covered.",
+            "contract-based deductive verification (nested loop invariants, ghost offset function) of the renaming step + bounded stand-in for the pandas path"),
     "C13": ("relabel_segmentation proved for every number of frames, pixels and table rows: nested loop invariants (np.unique over times, items of dict(zip(seg ids, node ids))) give 'source pixels of "
             "(time, seg id) carry node id (+1 iff some id is 0), background elsewhere, input untouched, graph shifted in place exactly once iff id 0'. Bounded: cross-check on every 2x3 array x <=3 detections; "
             "the builder's decision whether to relabel.", "contract-based deductive verification (nested loop invariants over symbolic arrays/columns) + bounded stand-in"),
